@@ -277,6 +277,92 @@ def check_guard_use(ctx):
     ctx.need(n >= 1, "no len()-guarded reductions found")
 
 
+EMPTY_RAISING = {"numpy.nanmax", "numpy.nanmin", "numpy.max", "numpy.min", "numpy.amax", "numpy.amin", "numpy.argmax", "numpy.argmin",
+                 "numpy.nanargmax", "numpy.nanargmin", "max", "min"}
+SCALAR_MAKERS = ("nanmax", "nanmin", "max", "min", "mean", "nanmean", "sum", "nansum", "len", "median", "nanmedian")
+
+
+def check_empty_reductions(ctx):
+    """np.nanmax/np.max/... raise ValueError on an empty array.  When their operand was subset by an np.where selection I, the call
+    must be protected by an emptiness test on I (or on something subset by I) that exits or encloses the call; a test on the
+    unselected array does not protect it."""
+    prog = ctx.prog
+    n = 0
+    for qual, m, c, f in prog.all_functions(["verif.output", "verif.metric", "verif.util", "verif.data"]):
+        where_defs = set()
+        for a in ast.walk(f):
+            if isinstance(a, ast.Assign) and len(a.targets) == 1 and isinstance(a.targets[0], ast.Name) and \
+                    any(isinstance(k, ast.Call) and call_name(m, k) == "numpy.where" for k in ast.walk(a.value)):
+                where_defs.add(a.targets[0].id)
+        if not where_defs:
+            continue
+        assigns = sorted((a for a in ast.walk(f) if isinstance(a, ast.Assign) and len(a.targets) == 1 and isinstance(a.targets[0], ast.Name)), key=lambda a: a.lineno)
+        derived = {}
+        derived_at = {}           # name -> line of the first statement that makes it a subset
+        for _ in range(3):
+            for a in assigns:
+                t = a.targets[0].id
+                if isinstance(a.value, ast.Call) and (call_name(m, a.value) or dotted(a.value.func) or "").split(".")[-1] in SCALAR_MAKERS:
+                    continue
+                srcs = set()
+                for x in ast.walk(a.value):
+                    if isinstance(x, ast.Subscript):
+                        srcs |= {y.id for y in ast.walk(x.slice) if isinstance(y, ast.Name) and y.id in where_defs}
+                    if isinstance(x, ast.Name) and x.id in derived and x.id != t:
+                        srcs |= derived[x.id]
+                if srcs:
+                    derived.setdefault(t, set()).update(srcs)
+                    derived_at.setdefault(t, a.lineno)
+        pm = parent_map(f)
+        for k in ast.walk(f):
+            if not (isinstance(k, ast.Call) and (call_name(m, k) or dotted(k.func) or "") in EMPTY_RAISING and k.args):
+                continue
+            srcs = set()
+            for x in ast.walk(k.args[0]):
+                if isinstance(x, ast.Name) and x.id in derived:
+                    srcs |= derived[x.id]
+                if isinstance(x, ast.Subscript):
+                    srcs |= {y.id for y in ast.walk(x.slice) if isinstance(y, ast.Name) and y.id in where_defs}
+            if not srcs:
+                continue
+            names = set(srcs) | {d for d, s_ in derived.items() if s_ & srcs}
+
+            def is_sel(x, line):
+                # the name denotes the selection (or an array already subset by it) at that line
+                return isinstance(x, ast.Name) and x.id in names and (x.id in where_defs or derived_at.get(x.id, 10 ** 9) < line)
+
+            def tests_selection(test):
+                for cmp_ in ast.walk(test):
+                    if isinstance(cmp_, ast.Call) and dotted(cmp_.func) == "len" and cmp_.args and any(is_sel(x, test.lineno) for x in ast.walk(cmp_.args[0])):
+                        return True
+                    if isinstance(cmp_, ast.Attribute) and cmp_.attr == "size" and is_sel(cmp_.value, test.lineno):
+                        return True
+                return False
+            guarded = False
+            cur = k
+            while cur is not None and not guarded:
+                par = pm.get(cur)
+                if isinstance(par, ast.If) and cur in par.body and tests_selection(par.test):
+                    guarded = True
+                for fld in ("body", "orelse"):
+                    b = getattr(par, fld, None)
+                    if isinstance(b, list) and cur in b:
+                        for st in b[:b.index(cur)]:
+                            if isinstance(st, ast.If) and tests_selection(st.test) and st.body:
+                                last = st.body[-1]
+                                if isinstance(last, (ast.Return, ast.Continue, ast.Raise)) or \
+                                        (isinstance(last, ast.Expr) and isinstance(last.value, ast.Call) and (call_name(m, last.value) or "").endswith("util.error")):
+                                    guarded = True
+                cur = par
+            n += 1
+            ctx.ob("C19.5", qual, guarded, "%s over a subset selected by %s is protected by an emptiness test on that selection" % (norm(k.func), sorted(srcs)),
+                   loc=prog.loc(m, k),
+                   msg="%s raises ValueError on an empty array; its operand is subset by %s, but no test of len(%s) exits or encloses the call (a test on the "
+                       "unselected array does not help): when nothing is selected (e.g. a score that is NaN at every location) the program ends in an "
+                       "unhandled exception" % (norm(k)[:50], sorted(srcs), "/".join(sorted(srcs))))
+    ctx.need(n >= 1, "no empty-raising reduction over a selected subset found (confirmed site: Standard._plot_mapimpact_core)")
+
+
 def check_writers(ctx):
     prog = ctx.prog
     om = prog.module("verif.output")
@@ -310,6 +396,7 @@ def run(ctx):
     check_flags(ctx)
     check_none_deref(ctx)
     check_guard_use(ctx)
+    check_empty_reductions(ctx)
     check_writers(ctx)
     ctx.floor("C19.3", 90)
 
